@@ -361,6 +361,11 @@ func sameKey(a, b *rc.Node) error {
 		}
 		return fmt.Errorf("parameter %d changed: %s -> %s", l, rc.FromNode(av), rc.FromNode(bv))
 	}
+	for _, l := range []int64{2, 3, 4, 5, -1, -2, -3, -4} {
+		if a.Lookup(l) == nil && b.Lookup(l) != nil {
+			return fmt.Errorf("parameter %d (%s) was invented by the re-encoding", l, rc.FromNode(b.Lookup(l)))
+		}
+	}
 	return nil
 }
 
